@@ -117,10 +117,10 @@ def validate_cases(d, prefix, chunk=25000):
         outs = list(ex.map(one, enumerate(chunks)))
     for ci, out in outs:
         done = False
-        for line in out.splitlines():
+        for line in vlib.tlc_tuples(out):
             m = TUP.match(line.strip())
             if not m:
-                continue
+                raise Inconclusive("unparsable TLC tuple: %s" % line[:300])
             kind, rest = m.group(1), m.group(2)
             if kind == "TRACE-DONE":
                 done = True
@@ -177,11 +177,18 @@ def run_descriptor(d, tier, prop):
     names = d.get("names")
     violations, known = [], []
     seen = set()
+    badids = set(cid for cid, bad in res["bad"])
+    badcases = {}
+    if badids:
+        for l in open(prefix + ".cases"):
+            m = re.match(r'\{"id":(\d+),', l)
+            if m and int(m.group(1)) in badids:
+                badcases[int(m.group(1))] = json.loads(l)
     for cid, bad in res["bad"]:
         mine = [n for n in bad if names is None or n in names]
         if not mine:
             continue
-        c = case_by_id(prefix, cid)
+        c = badcases.get(cid) or case_by_id(prefix, cid)
         for n in mine:
             sig = {"name": n, "driver": d["name"]}
             for k in d.get("signature_fields", []):
@@ -237,11 +244,18 @@ def finish(prop, tier, violations, known, covs, t0):
     for kid, (kf, n) in seen_kf.items():
         log("KNOWN-FINDING: property=%s %s [%s, %d distinct signatures]" % (prop, kf["what"], kid, n))
     rc = 0
+    shown = {}
     for payload in violations:
+        rc = 1
+        shown[payload["predicate"]] = shown.get(payload["predicate"], 0) + 1
+        if shown[payload["predicate"]] > 5:
+            continue
         p = vlib.write_replay(prop, payload)
         log("VIOLATION property=%s replay=%s" % (prop, p))
         log("  predicate %s driver %s input %s" % (payload["predicate"], payload["driver"], json.dumps(payload["case"]["in"])[:600]))
-        rc = 1
+    for n, c in shown.items():
+        if c > 5:
+            log("  … %d further distinct signatures of predicate %s not printed" % (c - 5, n))
     cases = sum(c["cases"] for c in covs)
     hits = {}
     for c in covs:
